@@ -560,6 +560,7 @@ class EnvCTM():
         -------
         proj: Peps structure loaded with CTM projectors related to all lattice site.
         """
+        opts_svd = dict(opts_svd)  # do not modify the dictionary provided by the caller
         if 'tol' not in opts_svd and 'tol_block' not in opts_svd:
             opts_svd['tol'] = 1e-14
 
